@@ -145,10 +145,15 @@ def canary(eng):
 def replay(o, tree):
     label = o.get("label", "")
     if "late binding" in label:
-        job = {"kind": "asm", "sources": [".link 1000\n.blkb x\n. = 1100\nnop\nx = 10\n"]}
-        r = driver.native([job], tree)[0]
-        exp = (b"\0" * 64 + b"\xa0\x00").hex()
-        return dict(jobs=[job], expected=["ok", exp], observed=[r["status"], r.get("code_hex", r.get("exc"))], reproduced=[r["status"], r.get("code_hex")] != ["ok", exp])
+        # a '. = X' whose zero fill is computed later: the start address, the state ('.') and the statement it reads are those of the skip itself
+        progs = [(".link 1000\n.blkb x\n. = 1100\nnop\nx = 10\n", (b"\0" * 64 + b"\xa0\x00").hex()),
+                 (".link 1000\nmov #1, r0\n. = . + gap\n.word 2\nnop\ngap = 10\n", (bytes.fromhex("c0150100") + b"\0" * 8 + bytes.fromhex("0200a000")).hex()),
+                 (".link 1000\nnop\n. = . + gap\nl: .word l\ngap = 4\n", (bytes.fromhex("a000") + b"\0" * 4 + (0o1006).to_bytes(2, "little")).hex())]
+        jobs = [{"kind": "asm", "sources": [p_]} for p_, _ in progs]
+        res = driver.native(jobs, tree)
+        obs = [[r["status"], r.get("code_hex", r.get("exc"))] for r in res]
+        exp = [["ok", e] for _, e in progs]
+        return dict(jobs=jobs, expected=exp, observed=obs, reproduced=obs != exp)
     if (o.get("cfg") or {}).get("kind") == "include" or "sized-site" in label and "include" in o.get("unit", ""):
         import os
         import tempfile
